@@ -17,6 +17,13 @@ theorem find_previous_is_greatest_checkpoint (vs : List Nat) (hs : vs.Pairwise (
     (∀ c, findPrevious vs version = some c ↔ c ∈ vs ∧ c ≤ version ∧ ∀ d ∈ vs, d ≤ version → d ≤ c) :=
   ⟨(findPrevious_spec vs hs version).1, fun c => findPrevious_eq_some_iff vs hs version c⟩
 
+/-- `VersionRange.Find` (the shard lookup of `getShard`) returns the least checkpoint not below the version,
+    and -1 exactly when the version lies beyond the last one -/
+theorem find_is_least_checkpoint_at_or_above (vs : List Nat) (hs : vs.Pairwise (· < ·)) (version : Nat) :
+    (find vs version = none ↔ ∀ d ∈ vs, d < version) ∧
+    (∀ c, find vs version = some c → c ∈ vs ∧ version ≤ c ∧ ∀ d ∈ vs, version ≤ d → c ≤ d) :=
+  find_spec vs hs version
+
 /-- **loading a version by checkpoint and replay reproduces it**: for every history of commits (any writes,
     any checkpoint placement), replaying the stored rows of the versions in `(c, v]`, in stored order, on the
     state of `c` yields the state of `v` — for every way `apply` acts on a state (the tree operations of
